@@ -5,6 +5,7 @@ package main
 // independent Go re-implementation of the route-list specification, evaluated on EVERY request.
 
 import (
+	"errors"
 	"fmt"
 	"net/http"
 	"net/http/httptest"
@@ -230,6 +231,7 @@ type routerWorker struct {
 	rec                                  *httptest.ResponseRecorder
 	req                                  *http.Request
 	cur                                  routerObs
+	panicNow                             bool     // the next handler that runs panics after recording
 	names                                []string // every :name of the current table (probed by every handler)
 	lines                                []routerLine
 	cnt                                  map[string]int
@@ -262,7 +264,13 @@ func (w *routerWorker) record(id int, s *httpd.Store) {
 	for _, n := range w.names {
 		c.gets = append(c.gets, s.RouteParam(n))
 	}
+	if w.panicNow {
+		w.panicNow = false
+		panic(routerHandlerPanic) // the handler's own panic (as http.ErrAbortHandler would be): not the router's
+	}
 }
+
+var routerHandlerPanic = errors.New("verif: this handler panics on purpose")
 
 func (w *routerWorker) serve(mux *httpd.Mux, path, method string) {
 	w.cur.calls, w.cur.id, w.cur.panicked = 0, -2, ""
@@ -277,7 +285,7 @@ func (w *routerWorker) serve(mux *httpd.Mux, path, method string) {
 		w.req.URL.RawPath = strings.ReplaceAll(path, "/", "%2F")
 	}
 	defer func() {
-		if r := recover(); r != nil {
+		if r := recover(); r != nil && r != any(routerHandlerPanic) {
 			w.cur.panicked = fmt.Sprint(r)
 		}
 	}()
@@ -413,7 +421,7 @@ type routerTable struct {
 func (w *routerWorker) installNoRoute(t *routerTable) {
 	t.nrGen++
 	gen := t.nrGen
-	t.mux.HandleNoRoute(func(s *httpd.Store) { w.record(-1, s); w.cur.nrGen = gen })
+	t.mux.HandleNoRoute(func(s *httpd.Store) { w.cur.nrGen = gen; w.record(-1, s) })
 }
 
 // setup registers the table; emit says whether lines for the Lean driver are produced.
@@ -1008,6 +1016,9 @@ func routerRandomTable(w *routerWorker, r *Rng) {
 		}
 		if i%37 == 20 {
 			w.installNoRoute(t) // the no-route handler is replaced while the mux is in service
+		}
+		if i%11 == 7 {
+			w.panicNow = true // the handler of the next request panics after looking around; later requests must not notice
 		}
 	}
 	if len(w.smpl) < 2 {
